@@ -171,21 +171,30 @@ theorem C03_pf_setup (os : PfOs) (c : Call)
 
 /-! ## 5. tproxy -/
 
-/-- tproxy's DNS rules (after `proposed_fixes/C03-tproxy-ipv6-dns-mask.diff`) match exactly
-UDP port 53 to the listed name server, in both families, in both chains. -/
-theorem C03_tproxy_dns_rule (v6 : Bool) (ns : Ns) (p : Pkt) (mark : Option String)
-    (hp : p.fam6 = v6) :
-    matchRule (tproxyDnsMatch v6 ns) p mark =
+/-- **Partial** (the full statement — for both families — is false of the code, see
+`C03_tproxy_dns_mask32_v6_false`): tproxy's DNS rules `--dest <ns>/32` match exactly UDP port 53
+to the listed name server **when the family is IPv4** (the mask equals the address width), in
+both chains.  The excluded case (IPv6 name server) is the known finding
+`C03:tproxy:ipv6-ns-mask32:dns-divert-of-non-nameserver`. -/
+theorem C03_tproxy_dns_rule_partial (ns : Ns) (p : Pkt) (mark : Option String)
+    (hp : p.fam6 = false) :
+    matchRule (tproxyDnsMatch false ns) p mark =
       (p.proto == .udp && p.dport == 53 && ns.addr == p.dst) :=
-  tproxyDns_match v6 ns p mark hp
+  tproxyDns_match_v4 ns p mark hp
 
-/-- The code before the fix rendered `--dest <ns>/32` for IPv6 too.  With that mask the rule
+/-- `C03_tproxy_dns_rule_partial` is about a non-trivial rule: it does match the name server. -/
+example :
+    matchRule (tproxyDnsMatch false ⟨2, "10.0.0.53", 167772213⟩)
+      { fam6 := false, dst := 167772213, dport := 53, proto := .udp, loc := true, dstLocal := false }
+      none = true := by decide
+
+/-- The code renders `--dest <ns>/32` for IPv6 too (`tproxyDnsWidth true = 32`).  With that mask the rule
 matches UDP/53 to addresses that are not the name server: the statement "the DNS rule matches
 only the name server" is false for mask 32 in IPv6 (witness: `2404:6800:4004:80c::33` vs
 `2404:6800:4004:80c::34`). -/
 theorem C03_tproxy_dns_mask32_v6_false :
     ¬ (∀ (ns : Ns) (p : Pkt), p.fam6 = true →
-        destMatch ⟨true, ns.ip, ns.addr, some 32⟩ p = true → p.dst = ns.addr) := by
+        destMatch ⟨true, ns.ip, ns.addr, some (tproxyDnsWidth true)⟩ p = true → p.dst = ns.addr) := by
   intro h
   have := h ⟨10, "2404:6800:4004:80c::33", 47875086426101804840912601426304172083⟩
     { fam6 := true, dst := 47875086426101804840912601426304172084, dport := 53, proto := .udp,
